@@ -227,6 +227,11 @@ def judge(ctx, case):
             ctx.count("odd-reference-count-skipped")
         elif interior_only:
             reported = [t for t in full if t[2] is not None]
+            if not exact:
+                # float data: an entry exactly at a segment end is a contact
+                # created by rounding (e.g. of an in-place rotation) that the
+                # reference, with its own rounding, does not have
+                reported = [t for t in reported if 0 < float(t[2]) < 1 and 0 < float(t[3]) < 1]
             if len(reported) % 2 == 1:
                 ctx.violation("parity", "odd-number-of-crossings", case, repr(reported), where)
     # ---- symmetry ------------------------------------------------------------
